@@ -258,7 +258,7 @@ def eval_tuple(triples, tier, rng):
         p = str(parse(res[dump(['vprint', enc_version(got)])]))
         if p != text:
             fails.append({'what': 'Version::from((%s) as %s) prints as `%s`, not `%s`' % (', '.join(map(str, nums)), ty, p, text), 'case': c, 'input': [ty] + nums, 'kind': 'tuple-print'})
-    return {'failures': fails[:40], 'nontrivial': nontrivial, 'distribution': dist, 'certs': certs}
+    return {'failures': fails, 'nontrivial': nontrivial, 'distribution': dist, 'certs': certs}
 
 # ------------------------------------------------------------------ C17
 def py_line_col(s, off):
@@ -361,7 +361,7 @@ def eval_errors(triples, tier, rng):
         dist['diagnostics_rendered'] += 1
         if o2 == 'panic' or o2.startswith('(bad') or o2 == 'noerr':
             fails.append({'what': 'the miette diagnostic of the error for %r cannot be rendered: %s' % (str(parse(c2)[2]), o2[:200]), 'case': c2, 'input': [str(parse(c2)[2])], 'kind': 'err-diag'})
-    return {'failures': fails[:40], 'nontrivial': nontrivial, 'distribution': dist, 'certs': certs}
+    return {'failures': fails, 'nontrivial': nontrivial, 'distribution': dist, 'certs': certs}
 
 def dec_rparse_err(o):
     if o == 'panic': return ('panic',)
